@@ -33,6 +33,7 @@ type ROp struct {
 	K      string `json:"k"`
 	N      int    `json:"n,omitempty"`
 	M      int    `json:"m,omitempty"`
+	L      int    `json:"l,omitempty"` // wait: ReadWait(L) first, then ReadWait(N) at the same position (a header is looked at before the whole packet is waited for)
 	Chunks []int  `json:"chunks,omitempty"`
 }
 
@@ -364,6 +365,25 @@ func (r *run) consumer(a *actor) {
 				r.begin(a, 'c', "peek", 1)
 				b, err = r.bf.ReadPeek(n)
 			} else {
+				if op.L > 0 && op.L < n {
+					r.begin(a, 'c', "wait", op.L)
+					h, herr := r.bf.ReadWait(op.L)
+					r.end(a)
+					if herr == io.EOF {
+						return true
+					}
+					if herr != nil || len(h) != op.L {
+						r.failSafety("%s: ReadWait(%d) returned (len %d, %v)", where, op.L, len(h), herr)
+						return true
+					}
+					if !r.verify(where+" (first, shorter ReadWait)", h, pos) {
+						return true
+					}
+					r.class("wait-twice-at-one-position")
+					if idx+int64(op.L) > r.size {
+						r.class("short-wait-crossed-ring-end")
+					}
+				}
 				r.begin(a, 'c', "wait", n)
 				b, err = r.bf.ReadWait(n)
 			}
@@ -979,6 +999,12 @@ func genConsTemplates(t *rapid.T, size int, n int, maxWait int, total int) []ROp
 			op.N = genChunk(t, size, "cn")
 			if k == "wait" {
 				op.N = clipTo(op.N, maxWait)
+				if op.N > 2 && rapid.Bool().Draw(t, "lookahead") {
+					op.L = rapid.SampledFrom([]int{1, 2, 2, 2, 5}).Draw(t, "cl")
+					if op.L >= op.N {
+						op.L = 2
+					}
+				}
 			}
 			if k != "read" && rapid.Bool().Draw(t, "partialcommit") {
 				op.M = rapid.IntRange(1, op.N).Draw(t, "cm")
